@@ -19,7 +19,16 @@ CT_FUNCTIONS = [
  'secp256k1_musig_nonce_gen_internal', 'secp256k1_musig_partial_sign', 'secp256k1_ecdsa_adaptor_encrypt', 'secp256k1_ecdsa_adaptor_decrypt', 'secp256k1_dleq_prove',
  'secp256k1_ecdsa_s2c_sign', 'secp256k1_ec_commit_seckey', 'secp256k1_whitelist_sign', 'secp256k1_pedersen_ecmult', 'secp256k1_pedersen_blind_sum', 'secp256k1_borromean_sign',
  'secp256k1_sha256_transform', 'secp256k1_memczero', 'secp256k1_int_cmov',
+ # API entry points that handle a secret and were not yet listed (round 5: a variable-time multiplication added to adaptor_recover)
+ 'secp256k1_ecdsa_adaptor_recover', 'secp256k1_ecdsa_sign', 'secp256k1_ecdsa_sign_recoverable', 'secp256k1_schnorrsig_sign32', 'secp256k1_schnorrsig_sign_custom',
+ 'secp256k1_musig_nonce_gen', 'secp256k1_musig_nonce_gen_counter', 'secp256k1_ecdsa_s2c_verify_commit', 'secp256k1_ecdsa_anti_exfil_signer_commit', 'secp256k1_anti_exfil_sign',
+ 'secp256k1_rangeproof_sign_impl', 'secp256k1_rangeproof_genrand', 'secp256k1_surjectionproof_generate', 'secp256k1_keypair_sec', 'secp256k1_ec_seckey_verify',
+ 'secp256k1_nonce_function_bip340', 'nonce_function_rfc6979_impl', 'secp256k1_ecmult_gen_context_blind', 'secp256k1_ecmult_gen_scalar_diff',
 ]
+# variable-time functions whose name does not say so
+VARTIME = {'secp256k1_ecmult', 'secp256k1_ecmult_strauss_wnaf', 'secp256k1_ecmult_pippenger_wnaf', 'secp256k1_ecmult_strauss_batch', 'secp256k1_ecmult_pippenger_batch',
+           'secp256k1_ecmult_strauss_batch_single', 'secp256k1_ecmult_pippenger_batch_single', 'secp256k1_ecmult_wnaf', 'secp256k1_wnaf_fixed', 'secp256k1_ecmult_odd_multiples_table',
+           'secp256k1_ge_set_xquad', 'secp256k1_ge_set_xo_var', 'secp256k1_ecdsa_sig_verify', 'secp256k1_ecdsa_sig_recover', 'secp256k1_schnorrsig_verify', 'secp256k1_ecdsa_verify'}
 def metrics(node):
     m = {'if': 0, 'cond': 0, 'logic': 0, 'loop': 0, 'for': 0, 'switch_goto': 0, 'return': 0, 'var_calls': []}
     def walk(n):
@@ -37,7 +46,7 @@ def metrics(node):
             elif k == 'ReturnStmt': m['return'] += 1
             elif k == 'DeclRefExpr':
                 nm = n.get('referencedDecl', {}).get('name', '')
-                if n.get('referencedDecl', {}).get('kind') == 'FunctionDecl' and nm.endswith('_var'): m['var_calls'].append(nm)
+                if n.get('referencedDecl', {}).get('kind') == 'FunctionDecl' and (nm.endswith('_var') or nm in VARTIME): m['var_calls'].append(nm)
             for v in n.values(): walk(v)
         elif isinstance(n, list):
             for v in n: walk(v)
